@@ -88,6 +88,21 @@ func runC14(c *sim.Ctx) *sim.Violation {
 			f, _ := ref.Frame(byte(t.Int(16)), raw, nil) // type 0 with data
 			return f
 		}
+		if t.Bool(1, 5) {
+			// a frame damaged in flight by one of the C04 fault plans (incl. properties
+			// MQTT does not allow in that packet): whatever the decoder makes of
+			// it, other packets must not feel it
+			f, fm := ref.Encode(gen.Packet(t, cfg))
+			other, _ := ref.Encode(gen.Packet(t, cfg))
+			d, plan := gen.Damage(t, f, fm, other, false)
+			c.Count("fault.corrupt:" + plan)
+			if len(d) >= 2 {
+				if _, _, _, err := ref.SplitFrame(d); err == nil {
+					return d
+				}
+			}
+			return f
+		}
 		if t.Bool(1, 8) {
 			// a CONNECT that announces another protocol name/version (the library
 			// accepts any): decoding it must not disturb what NewConnect() hands out
